@@ -114,6 +114,9 @@ def run(ctx):
     rect, ell = gen_cases(ctx)
     v1, s1 = eval_rect(ctx, rect)
     v2, s2 = eval_ell(ctx, ell)
+    rv, rn = c09.reuse_probe(ctx, "covered")
+    v2 = v2 + rv
+    s2["in_place_update_queries"] = rn
     stats = {**s1, **s2}
     n = s1["rect_true"] + s1["rect_false"] + s2["ell_true"] + s2["ell_false"]
     cases = rect + ell
@@ -125,6 +128,9 @@ def run(ctx):
 
 def replay(ctx, data):
     r = data["replay"]
+    if "reuse" in r:
+        rv, _ = c09.reuse_probe(ctx, r["reuse"])
+        return bool(rv), (rv[0]["message"] if rv else "in-place updated regions answer as fresh ones")
     def F(x):
         return [F(e) for e in x] if isinstance(x, list) else Fraction(x)
     c = {k: (F(v) if k in ("W", "l1", "u1", "l2", "u2", "slack", "c1", "c2", "S1", "S2", "a1", "a2", "scale") else v) for k, v in r.items()}
